@@ -466,6 +466,9 @@ pub enum Case20 {
     },
     /// render one error value
     Render { variant: u8, payload: u16 },
+    /// render several error values one after the other on one thread (a few
+    /// distinct payloads, repeated): each text must name its own value
+    RenderHistory(Vec<(u8, u16)>),
 }
 
 /// The Debug variant name of the AVP that the decoder actually produces for
@@ -503,6 +506,25 @@ fn tokens(s: &str) -> Vec<&str> {
 
 fn exec_c20(case: &Case20, obs: &mut Obs) -> Result<(), Failure> {
     match case {
+        Case20::RenderHistory(steps) => {
+            obs.count("probe:render-history");
+            on_fresh_thread(|| {
+                for (i, (variant, payload)) in steps.iter().enumerate() {
+                    let one = Case20::Render {
+                        variant: *variant,
+                        payload: *payload,
+                    };
+                    if let Err(mut f) = exec_c20(&one, obs) {
+                        if steps.len() > 1 {
+                            f.class = format!("history:{}", f.class.split('-').next().unwrap_or(""));
+                            f.detail = format!("rendering #{i} of {:?}: {}", steps, f.detail);
+                        }
+                        return Err(f);
+                    }
+                }
+                Ok(())
+            })
+        }
         Case20::Render { variant, payload } => {
             let errs = all_error_variants(*payload);
             let e = &errs[*variant as usize % errs.len()];
@@ -736,6 +758,20 @@ impl Scenario for C20 {
             };
             cases.push(Case20::Render { variant, payload });
         }
+        // a rendering history over two or three values
+        {
+            const NUMS: [u16; 10] = [20, 40, 41, 255, 1000, 2000, 65535, 7, 0, 39];
+            let k = wl.urange(2, 3);
+            let mut vals: Vec<(u8, u16)> = Vec::new();
+            for _ in 0..k {
+                // the variants that carry an attribute number, mostly
+                let variant = if wl.chance(3, 4) { *wl.pick(&[0u8, 2, 4, 0, 2, 4, 1, 5, 6]) } else { wl.below(26) as u8 };
+                vals.push((variant, if wl.chance(3, 4) { *wl.pick(&NUMS) } else { wl.u16() }));
+            }
+            let n = wl.urange(4, 9);
+            let steps: Vec<(u8, u16)> = (0..n).map(|_| *wl.pick(&vals)).collect();
+            cases.push(Case20::RenderHistory(steps));
+        }
         for (k, mut c) in cases.into_iter().enumerate() {
             if let Case20::Single { bytes, trail, .. } = &mut c {
                 if wl.chance(1, 40) && bytes.len() >= 4 {
@@ -760,6 +796,17 @@ impl Scenario for C20 {
     fn shrink(case: &Case20) -> Vec<Case20> {
         match case {
             Case20::Render { .. } => Vec::new(),
+            Case20::RenderHistory(steps) => {
+                let mut out = Vec::new();
+                for i in 0..steps.len() {
+                    let mut v = steps.clone();
+                    v.remove(i);
+                    if !v.is_empty() {
+                        out.push(Case20::RenderHistory(v));
+                    }
+                }
+                out
+            }
             Case20::Single {
                 bytes,
                 expect,
